@@ -270,6 +270,32 @@ def run_case(a):
                 continue
             origin = decoys.get(inv, "unknown-origin") if inv is not None else "wrapper-without-string-literal-invoke"
             res["viol"].append(("C03 extra-wrapper origin=%s" % origin, "wrapper(s) %s invoke %r which is not a top-level command" % ([x[0] for x in lst], inv)))
+        if not res["viol"] and idx % 4 == 0 and len({i["file"] for i in truth.values()}) > 1:
+            # the project shrinks (the last command-bearing file is deleted) and the bindings are regenerated into the same directory:
+            # the commands module must follow, whatever the directory held before
+            import os
+            src_name = (anc + "/app/src") if anc else "src"
+            victim = sorted(i["file"] for i in truth.values() if "->" not in i["file"])[-1]
+            vp = os.path.join(g.root, src_name, victim)
+            if os.path.isfile(vp):
+                os.unlink(vp)
+                truth2 = {k: v for k, v in truth.items() if v["file"] != victim}
+                g2 = proj.generate(cli, None, mode=mode, root=g.root, src_name=src_name, tag="c03", force=True)
+                res["regenerated"] = 1
+                if g2.run.rc == 0 and "commands.ts" in g2.output.mods and not g2.output.mods["commands.ts"].errors:
+                    inv2 = {}
+                    for fname, lst in g2.output.commands().items():
+                        for c in lst:
+                            inv2.setdefault(c["invoke_name"], []).append(fname)
+                    for inv in sorted(k for k in inv2 if k not in truth2 and k is not None):
+                        res["viol"].append(("C03 extra-wrapper origin=%s after-regeneration-into-the-same-directory" % ("deleted-source-file" if inv in truth else decoys.get(inv, "unknown-origin")),
+                                            "after %s was deleted and the bindings regenerated with --force, wrapper(s) %s still invoke %r" % (victim, inv2[inv], inv)))
+                    for nm in sorted(truth2):
+                        if nm not in inv2:
+                            res["viol"].append(("C03 missing-wrapper after-regeneration-into-the-same-directory", "after %s was deleted and the bindings regenerated, command %s lost its wrapper" % (victim, nm)))
+                elif truth2 and g2.run.rc == 0:
+                    pf = common.parse_fault(g2.output, ("commands.ts",)) if "commands.ts" in g2.output.mods else ("missing", "commands.ts missing")
+                    res["viol"].append(("C03 commands.ts-does-not-parse after-regeneration-into-the-same-directory " + pf[0], pf[1]))
         if res["viol"]:
             res["witness"] = proj.witness_of(files, mode, extra={"expected_commands": sorted(truth), "decoys": decoys})
         return res
